@@ -53,6 +53,7 @@ int main(int argc, char **argv)
     if(c == "bankmap") return comp_bankmap();
     if(c == "pitch") return comp_pitch();
     if(c == "synth") return comp_synth();
+    if(c == "audio") return comp_audio();
     fprintf(stderr, "unknown component %s\n", c.c_str());
     return 2;
 }
